@@ -21,6 +21,8 @@ PID = 'C19'
 LEAN_TARGETS = ['NibabelModel.Props.C19']
 THEOREMS = [
     'Nb.C19.geometry_roundtrip',
+    'Nb.C19.int_token_roundtrip',
+    'Nb.C19.geometry_roundtrip_int_volume',
     'Nb.C19.morph_roundtrip',
     'Nb.C19.morph_accepts_iff',
     'Nb.C19.backMap_inverse',
@@ -47,14 +49,20 @@ ASSUMPTIONS = [
     'float32 values are raw bit patterns; the float64->float32 cast of the writers and the widening of the readers '
     'are NumPy (harness feeds float32-exact values, oracle compares to NumPy casts)',
     'UTF-8 encode/decode of the create stamp and of annotation names is CPython; volume-info text is modelled for '
-    'ASCII only; number<->text conversion of volume-info values (format .10g, int(), float()) is external: the '
-    'model carries the value tokens, the oracle compares numeric values',
+    'ASCII only; FLOAT<->text conversion of volume-info values (format .10g, float()) is external: the model '
+    'carries the value tokens, the oracle compares numeric values (bit-exact for 10-digit decimals, same float32 '
+    'for single-precision values, 10 significant digits otherwise); the INTEGER tokens of the volume line are '
+    'modelled (intRepr/intParse over C16 decRepr/parseDec) and compared as integers; |volume| < 2^63 (np.int64)',
     'NumPy argsort (not stable) is modelled by a stable merge sort; they agree on pairwise distinct values '
     '(the property domain); generators never produce duplicate annotation values',
     'np.searchsorted(side=left) on a sorted array = index of the first element >= v',
-    'MGH: voxel_sizes(affine) and the allclose test of update_header are NumPy; generated affines are signed '
-    'permutations scaled by float32-exact zooms, so delta == zooms exactly; Mdc/Pxyz_c bytes (property C04) are '
-    'masked in the byte comparison; Fortran-order raveling of the data is NumPy',
+    'MGH: voxel_sizes(affine), the allclose test of update_header and the float arithmetic of _affine2header are '
+    'NumPy; generated affines are signed permutations scaled by float32-exact zooms plus an integer translation, so '
+    'delta == zooms exactly and the 48 Mdc/Pxyz_c bytes are computed by the harness without nibabel (ras_bytes) and '
+    'handed to the model as an input: file bytes are compared UNMASKED; Fortran-order raveling of the data is NumPy',
+    'mghload: file bytes laid out by the harness (struct) are read by MGHHeader.from_fileobj + data_from_fileobj and '
+    'by the model readMgh (goodRASFlag 0, partial/absent footer, trailing tags, bad version/type/dims, short files); '
+    'dims >= 2^31 (negative int32) are not generated',
     'old-format inputs (quad surfaces, old morph files, old colour tables), truncated files and counts >= 2^31/3 '
     'are outside the model (never written by the library / not generable)',
     'Generated/C19.lean is extracted by regen() from the working tree (AST constants of io.py, np.dtype of the MGH '
@@ -66,7 +74,13 @@ RULE = ('streams: geom (0..n vertices, 0..m faces, float32 bit patterns incl. su
         'morph (every accepted shape kind x n, rejected shapes, fnum range); annot (0..k entries with pairwise distinct '
         'packed colours incl. 0, labels in {-1} u [0,n), fill_ctab on/off, 4/5 columns, names 0..200 chars incl. '
         'unicode, orig_ids); annot-edge (out-of-range labels, short names list, wrong 5th column, int32 overflow); '
-        'mgh (1-4 dims x uint8/int16/int32/float32 x zooms x set_zooms/TR x footer fields x .mgh/.mgz); mgh-edge '
+        'annot-chain (history write, read, recolour ctab[:, :3] of the table read back so its 5th column is stale - incl. '
+        'permutations of the old colours -, write with fill_ctab on/off, read; bytes names); '
+        'mgh (1-4 dims x uint8/int16/int32/float32 x zooms x set_zooms/TR x footer fields x .mgh/.mgz; Mdc/Pxyz_c bytes '
+        'unmasked); mgh-footer (1-D/2-D/3-D single-frame volumes with all five footer fields non-zero, .mgh/.mgz); '
+        'mghload (reader on hand-laid files: goodRASFlag 0/odd, partial footer, trailing bytes, bad version/type/dims, '
+        'truncation); volume_info floats: 10-digit decimals, float32 values with 8-9 significant digits (oblique '
+        'cosines, off-centre c_ras), full doubles; mgh-edge '
         '(zero dims, 5-D, unsupported dtypes, invalid zooms); zoom (bare header set_data_shape/set_zooms). '
         'A case is non-trivial when it carries at least one vertex/value/voxel; distinct by sha1 of its data.')
 
@@ -338,7 +352,7 @@ def mk_geom(d, stream='geom'):
             v = vol[k]
             return ','.join((f(x).hex() or '_') for x in v) if v else '-'
         vs = ';'.join([commas(vol['head']), hx(vol['valid'].encode()), hx(vol['filename'].encode()),
-                       vec('volume', tok_int)] + [vec(k, tok_float) for k in VEC_KEYS])
+                       commas(vol['volume'])] + [vec(k, tok_float) for k in VEC_KEYS])
     line = (f"C19 geom {int(d['meta'])} {hx(stamp)} {d['nv']} {d['nf']} {commas(d['coords'])} "
             f"{commas(d['faces'])} {vs}")
     key = None if d['nv'] == 0 and d['nf'] == 0 and vol is None else ('geom', _h(d))
@@ -469,7 +483,7 @@ def impl_geom(case):
     else:
         vs = ';'.join(['head=' + lst(vi['head']), 'valid=' + hx(vi['valid'].encode()),
                        'filename=' + hx(vi['filename'].encode()),
-                       'volume=' + hexlist(tok_int(x) for x in vi['volume'])] +
+                       'volume=' + lst(vi['volume'])] +
                       [k + '=' + hexlist(tok_float(x) for x in vi[k]) for k in VEC_KEYS])
     return (f"ok {hx(raw)} stamp={hx(stamp2.encode('utf-8'))} nv={c2.shape[0]} nf={f2.shape[0]} "
             f"coords={lst(c32.reshape(-1).view('>u4'))}{'' if exact else '!inexact'} faces={lst(f2.reshape(-1))} vol={vs}")
@@ -1188,7 +1202,8 @@ def rand_vol(rng, rich=False):
     return {'head': rng.choice([[20], [2, 0, 20], [2, 0, 20]]),
             'valid': rng.choice(['1  # volume info valid', '0', '1', rand_text(rng, 0, 30, VAL_ALPHA, False).strip()]),
             'filename': rng.choice(['../mri/filled-pretess255.mgz', rand_text(rng, 0, 60, VAL_ALPHA, False).strip()]),
-            'volume': [rng.choice([256, 0, 1, rng.randrange(-5, 100000)]) for _ in range(3)],
+            'volume': [rng.choice([256, 0, 1, -1, 10, 99, 100, 2 ** 31, -2 ** 40, 10 ** 18, 2 ** 63 - 1, -2 ** 63,
+                                   rng.randrange(-5, 100000), rng.randrange(-10 ** 12, 10 ** 12)]) for _ in range(3)],
             **{k: [rng.choice(['1', '0', '-1', '1e-10', rand_dec(rng)]) for _ in range(3)] for k in VEC_KEYS}}
 
 
@@ -1338,6 +1353,13 @@ def gen_annot2(rng):
         rgb = rgb[:rng.randrange(0, n)]                  # only the first rows recoloured
     elif k < 0.10 and n:
         rgb[rng.randrange(n)][rng.randrange(3)] = rng.choice([256, -1, 1000, 65536])
+    # the table the second write sees must keep pairwise distinct annotation values (NumPy's argsort is not
+    # stable; the model's is): a partial recolouring must not reproduce a colour of an untouched row
+    final = [pack(x) for x in rgb] + [pack(r0) for r0 in d['ctab'][len(rgb):]]
+    if len(set(final)) != n:
+        rgb = [[(i + 1) & 255, ((i + 1) >> 8) & 255, 77] for i in range(n)]
+        while {pack(x) for x in rgb} & old:
+            rgb = [[x[0], x[1], (x[2] + 1) & 255] for x in rgb]
     d.update({'op': 'annot2', 'orig': False, 'rgb': rgb, 'fill2': rng.random() < 0.85})
     return d
 
